@@ -368,6 +368,52 @@ fn apply_orientation_empty_contract() {
     assert!(r.is_empty(), "[C06,C15] apply_orientation of an empty rectangle is empty");
 }
 
+// ---------------------------------------------------------------------------------------------------
+// monotonicity of the operations the padding rules of util.rs are composed of (nested extents stay nested)
+// ---------------------------------------------------------------------------------------------------
+fn nested_pair() -> (Region, Region) {
+    let a = any_region();
+    let b = any_region();
+    // regions of a frame render: far from the i32 limits (see util.rs harness: any_frame_region)
+    kani::assume(l(a).abs() <= (1 << 30) + (1 << 14) && t(a).abs() <= (1 << 30) + (1 << 14) && a.width <= (1 << 30) + (1 << 14) && a.height <= (1 << 30) + (1 << 14));
+    kani::assume(l(b).abs() <= (1 << 30) + (1 << 14) && t(b).abs() <= (1 << 30) + (1 << 14) && b.width <= (1 << 30) + (1 << 14) && b.height <= (1 << 30) + (1 << 14));
+    kani::assume(extent_covers(b, l(a), t(a), rt(a), bt(a)));
+    (a, b)
+}
+fn nested(inner: Region, outer: Region) -> bool {
+    extent_covers(outer, l(inner), t(inner), rt(inner), bt(inner))
+}
+#[kani::proof]
+fn monotone_downsample() {
+    let (a, b) = nested_pair();
+    let f: u32 = kani::any();
+    kani::assume(f <= 12);
+    assert!(nested(a.downsample(f), b.downsample(f)), "[C06] downsample is monotone");
+}
+#[kani::proof]
+fn monotone_pad() {
+    let (a, b) = nested_pair();
+    let s: u32 = kani::any();
+    kani::assume(s <= 48);
+    assert!(nested(a.pad(s), b.pad(s)), "[C06] pad is monotone");
+}
+#[kani::proof]
+fn monotone_upsample() {
+    let (a, b) = nested_pair();
+    let f: u32 = kani::any();
+    kani::assume(f <= 12);
+    kani::assume(l(a).abs() <= 1 << 18 && t(a).abs() <= 1 << 18 && a.width <= 1 << 18 && a.height <= 1 << 18);
+    kani::assume(l(b).abs() <= 1 << 18 && t(b).abs() <= 1 << 18 && b.width <= 1 << 18 && b.height <= 1 << 18);
+    assert!(nested(a.upsample(f), b.upsample(f)), "[C06] upsample is monotone");
+}
+#[kani::proof]
+fn monotone_container_aligned() {
+    let (a, b) = nested_pair();
+    let k: u32 = kani::any();
+    kani::assume(k <= 10);
+    assert!(nested(a.container_aligned(1 << k), b.container_aligned(1 << k)), "[C06] container_aligned is monotone");
+}
+
 #[kani::proof]
 fn canary() {
     let a = any_wf_region();
